@@ -34,6 +34,7 @@ def shards(tier):
         out.append(dict(part="nextseq", base=33, c=10, first=first, deltas=sc["ns_deltas"], nmax=sc["ns_nmax"]))
     out.append(dict(part="nextseq", base=64, c=20, first=None, deltas=(-1, 0, 2), nmax=5))
     out.append(dict(part="printable"))
+    out.append(dict(part="long"))  # reads of 300-8000 bases: running sums far beyond what short reads reach
     for cfg in range(len(CLI_CONFIGS)):
         out.append(dict(part="cli", cfg=cfg, deltas=sc["cli_deltas"], nmax=sc["cli_nmax"]))
     return out
@@ -142,6 +143,34 @@ def run_shard(d):
                         if trimmer.trimmed_bases - before != n - e:
                             res["viol"].append(("count", "NextseqQualityTrimmer.trimmed_bases wrong",
                                                 dict(seq=sq, q=list(q), cutoff=c)))
+    elif part == "long":
+        pats = []
+        for L in (300, 1800, 2500, 8000):
+            pats.append([2] * L)
+            pats.append([40] * (L // 4) + [3 + (i % 10) for i in range(L - L // 4)])
+            pats.append([2 + (i % 9) for i in range(L // 2)] + [38] * (L - L // 2))
+            pats.append([12 if i % 7 else 35 for i in range(L)])
+            pats.append([30] * (L // 3) + [5] * (L // 3) + [30] * (L - 2 * (L // 3)))
+        for q in pats:
+            n = len(q)
+            for base in (33, 64):
+                qs = "".join(chr(v + base) for v in q)
+                for cf, cb in ((20, 20), (0, 20), (20, 0), (15, 25)):
+                    res["evals"] += 1
+                    r = quality_trim_index(qs, cf, cb, base)
+                    exp = refops.qualtrim(q, cf, cb)
+                    ok = tuple(r) == exp or (exp[0] == exp[1] and r[0] == r[1])
+                    if not ok:
+                        res["viol"].append(("index", f"quality_trim_index gave {r} on a read of {n} bases, definition gives {exp}",
+                                            dict(length=n, pattern=q[:8], cf=cf, cb=cb, base=base)))
+                    if exp != (0, n):
+                        res["nontrivial"] += 1
+            seq = "".join("G" if (i * 7) % 5 == 0 else "A" for i in range(n))
+            rec = SequenceRecord("r", seq, "".join(chr(v + 33) for v in q))
+            res["evals"] += 1
+            r, e = nextseq_trim_index(rec, 20, 33), refops.nextseq3(seq, q, 20)
+            if r != e:
+                res["viol"].append(("nextseq", f"nextseq_trim_index gave {r} on a read of {n} bases, definition gives {e}", dict(length=n, pattern=q[:8])))
     elif part == "printable":
         # every printable quality character, both bases: single characters and pairs against all cutoffs 0..45
         for base in (33, 64):
